@@ -21,6 +21,6 @@ func main() {
 		run.Set("bounds", map[string]any{"max_features": int64(b.Features), "max_nodes": int64(b.MaxNodes), "max_edges": int64(b.MaxEdges), "graphs_per_query_budget": int64(b.Budget)})
 		run.Finish()
 	}
-	tv.RunC01(run, tv.Backend(), tv.Queries(b.Features), b)
+	tv.RunC01(run, tv.Backend(), tv.AllQueries(string(run.Tier), b.Features), b)
 	run.Finish()
 }
